@@ -192,6 +192,7 @@ func isMethodCall(in ssa.Instruction, pkgPath, typeName, name string) bool {
 
 func namedOf(t types.Type) *types.Named {
 	for {
+		t = types.Unalias(t)
 		switch x := t.(type) {
 		case *types.Pointer:
 			t = x.Elem()
